@@ -218,6 +218,9 @@ class Builder:
             if not self.leave_args:
                 scribble(v)
             return self._note(s, t)
+        if k in ("mult", "pmult"):
+            from . import fwdtype  # noqa: F401  (registers the types)
+            return self._note(getattr(schema, "mc_" + k)(t[1]), t)
         if k == "raw":
             return t[1]            # not a schema at all (an operand / member that must be refused)
         if k == "ualias":
@@ -412,4 +415,6 @@ def show(t):
         return f"UserAlias:{t[1]}"
     if k == "fwd":
         return f"Fwd({show(t[1])})"
+    if k in ("mult", "pmult"):
+        return f"{'Positive' if k == 'pmult' else ''}MultipleOf({t[1]})"
     return repr(t)
